@@ -474,7 +474,11 @@ class ArcBasedRoutingProblem(RoutingProblem):
         self.enumerate_variables()
         self.feasible_solution = np.zeros(self.num_variables)
         for a in used_arcs:
-            self.feasible_solution[self.get_var_index(*a)] = 1
+            var_index = self.get_var_index(*a)
+            if var_index is None:
+                self.feasible_solution = None
+                raise ValueError(f"Construction heuristic failed: {a} is not a variable")
+            self.feasible_solution[var_index] = 1
         return
 
     def check_and_add_exit_arc(self, node_index, cost=0):
